@@ -336,6 +336,14 @@ class Sim:
     def focus_ordinal(self):
         return len(self.seqs) - 1
 
+    publish_error = None
+
+    def _publish(self, data):
+        try:
+            self.conn._dispatch(data)
+        except Exception as ex:  # noqa  (reported by the event that started the publisher)
+            self.publish_error = ex
+
     # -- events
     def _payload(self, obj):
         if obj is None:
@@ -382,7 +390,7 @@ class Sim:
 
     def _event(self, tok):
         c, res = tok[0], self.res
-        if res is None and c in "XCrexvw":
+        if res is None and c in "XCGrexvw":
             raise BadSequence("the application no longer holds the result")
         if c in "QYZK" and not (c == "K" and self.wrapper is None):
             # a fresh request: its result has a callback log and a ready instant of its own (callbacks of earlier
@@ -410,6 +418,36 @@ class Sim:
         elif c == "U":
             self.conn.serve(self.secs(parse_tau(tok[1:])))
             self.chan.idle_polls = 0
+            out = "-"
+        elif c == "G":
+            # add_callback(c) with the reply delivered by ANOTHER thread between add_callback's test of `_is_ready` and its
+            # append: the result's list is one whose first append lets the publisher run (and gives it 50 ms: with an
+            # exclusion in place it has to wait for the registration to finish, without one it is done at once)
+            import threading
+            cid, m = tok[1:].split(":")
+            data = self.encode(("R", self.focus_ordinal(), m[0] == "T", int(m[1:])))
+            publisher = threading.Thread(target=self._publish, args=(data,), daemon=True, name="publisher")
+            sim_self = self
+
+            class PausingList(list):
+                armed = True
+
+                def append(lst, item):
+                    if lst.armed:
+                        lst.armed = False
+                        publisher.start()
+                        publisher.join(0.05)
+                    list.append(lst, item)
+            res._callbacks = PausingList(res._callbacks)
+            res.add_callback(CB(int(cid), self))
+            if not publisher.is_alive() and not publisher.ident:
+                publisher.start()          # (the result was ready: nothing was appended; the reply is a duplicate)
+            publisher.join(3)
+            if publisher.is_alive():
+                raise Blocked()
+            if self.publish_error is not None:
+                err, self.publish_error = self.publish_error, None
+                raise err
             out = "-"
         elif c == "P":
             self.conn.poll_all(self.secs(parse_tau(tok[1:])))
@@ -595,6 +633,13 @@ def run_impl_multi(t0, toks, unit=1):
         sim.close()
 
 
+class CallbackBug(Exception):
+    """a user-defined exception class for callbacks that fail"""
+
+
+RAISES = [RuntimeError, KeyError, CallbackBug]
+
+
 class RCB:
     """a callback that may register further callbacks from inside itself, read the value, issue a request, and raise"""
 
@@ -614,7 +659,7 @@ class RCB:
         elif extra == "request":
             self.sim.conn.async_request(self.sim.consts.HANDLE_PING, "y")
         if raises:
-            raise RuntimeError("callback %d" % cid)
+            raise RAISES[cid % len(RAISES)]("callback %d" % cid)
 
 
 def call_case_line(case):
@@ -645,8 +690,8 @@ def run_call_case(case):
         Watchdog.enter()
         try:
             sim.conn._dispatch(sim.encode(("R", 0, exc, 7)))
-        except RuntimeError:
-            raised = "T"
+        except tuple(RAISES) as ex:
+            raised = "T" if str(ex.args[0]).startswith("callback ") else "!" + type(ex).__name__
         except Blocked:
             return "BLOCKED: the dispatch of the reply did not come back (log so far [%s])" % ",".join(log)
         except Exception as ex:  # noqa
@@ -858,6 +903,20 @@ def traffic_sequences():
                         for ops in (["P0", "x", "P0"], ["P1", "r"], ["P3", "P0", "v"], ["r", "r", "r", "e"], ["r", "w"],
                                     ["T1", "P2", "r", "P0", "x"], ["e", "P5", "v"]):
                             out.append(["X" + tau_tok(tau)] + traffic + ops)
+    return out
+
+
+def race_sequences():
+    """a callback registered while another thread publishes the reply (G), among callbacks registered before and after,
+    pending / already ready / already expired, value or exception"""
+    out = []
+    for tau in (None, 3, 0):
+        for exc in "FT":
+            out.append(["X" + tau_tok(tau), "G1:%s7" % exc, "r", "v"])
+            out.append(["X" + tau_tok(tau), "C1", "G2:%s7" % exc, "C3", "x", "v"])
+            out.append(["X" + tau_tok(tau), "C1", "T1", "G2:%s7" % exc, "T5", "C3", "w"])
+            out.append(["X" + tau_tok(tau), "AF5", "G2:%s7" % exc, "v"])
+            out.append(["X" + tau_tok(tau), "T5", "G2:%s7" % exc, "r", "C3"])
     return out
 
 
@@ -1246,7 +1305,8 @@ def correspondence(ctx):
               "(each at most once; callbacks numbered by registration), ALL sequences with up to 3 repetitions of "
               "length <= 3, plus seeded sequences of length <= 14 with delayed replies, busy unrelated requests, "
               "re-arming, duplicate replies, serve(0), serve(t), poll_all(t), sync_request/timed/async_request(timeout=); "
-              "sustained unrelated inbound traffic around the reply under poll_all(t) / ready / wait; a grid of requests "
+              "a callback registered while ANOTHER THREAD publishes the reply (add_callback paused between its test and its "
+              "append, the reply delivered by a second thread); sustained unrelated inbound traffic around the reply under poll_all(t) / ready / wait; a grid of requests "
               "issued late or repeatedly (a timed() wrapper made at t0 and called 2-3 times after delays 0/<tau/=tau/>tau, "
               "async_request(timeout=) repeated, sync_request on a connection older than its timeout; each reply before / "
               "at / after that call's own deadline); fire-and-forget (callbacks registered, the application drops its only "
@@ -1340,6 +1400,9 @@ def correspondence(ctx):
                     flush(True)
             flush(True)
         ctx.log("enumeration: %d sequences on the real code and the model in %.1fs" % (n_enum, _walltime.time() - t_start))
+        for toks in race_sequences():
+            add(0, toks, run_impl(0, toks))
+            c.count("registration-racing-with-publication")
         for toks in traffic_sequences():
             add(0, toks, run_impl(0, toks))
             c.count("sustained-traffic:poll_all/ready")
@@ -1567,6 +1630,8 @@ def _oracle_sequence(t0, toks, tolerate_rearm, state):
                 deadline = dl_at_call
             if c == "C" and not was_ready:
                 registered.append((int(tok[1:]), called_at))
+            if c == "G" and not was_ready:
+                registered.append((int(tok[1:].split(":")[0]), called_at))    # registered while the reply is being published
             # --- a reply was dispatched during this event: decide what the statement says about it
             for at, o_ in sim.reply_times[n_replies:]:
                 if first_reply_seen or o_ != len(sim.seqs) - 1:
@@ -1592,8 +1657,8 @@ def _oracle_sequence(t0, toks, tolerate_rearm, state):
             if outcome and outcome[0] == "ready":
                 if (res._is_ready, res._is_exc, sim._payload(res._obj)) != (True,) + outcome[1:]:
                     return "event %d (%s): ready result changed to %r" % (i, tok, (res._is_ready, res._is_exc, res._obj))
-                if c == "C" and was_ready:
-                    if [(cid, t) for cid, t, _ok in sim.cblog[len(log_before):]] != [(int(tok[1:]), called_at)]:
+                if c in "CG" and was_ready:
+                    if [(cid, t) for cid, t, _ok in sim.cblog[len(log_before):]] != [(int(tok[1:].split(":")[0]), called_at)]:
                         return "event %d (%s): callback registered on a ready result did not run at once, exactly once" % (i, tok)
                 elif arrival_at is not None and sim.cblog != log_before and not (
                         len(log_before) < len(sim.cblog) and sim.cblog[len(log_before)][1] == arrival_at and not was_ready):
@@ -1696,15 +1761,15 @@ def oracle_call(case):
     thread; afterwards the value stays available and nothing runs again"""
     import re
     expired, now, exc, specs = case
-    got = re.sub(r" cb\[[^\]]*\]", " cb[]", run_call_case(case))      # (what stays stored is not the statement's business)
+    # (what stays stored, and whether a callback's error then surfaces in the serving thread, is not the statement's business)
+    got = re.sub(r" raised[TF]", " raised-", re.sub(r" cb\[[^\]]*\]", " cb[]", run_call_case(case)))
     if expired:
-        want = "st F N N cb[] log[] raisedF"
+        want = "st F N N cb[] log[] raised-"
     else:
         ids = []
         for cid, _raises, adds, _x in specs:
             ids += [cid] + list(adds)
-        want = "st T %s 7 cb[] log[%s] raised%s" % ("T" if exc else "F", ",".join("%d@%d" % (i, now) for i in ids),
-                                                  "T" if any(sp[1] for sp in specs) else "F")
+        want = "st T %s 7 cb[] log[%s] raised-" % ("T" if exc else "F", ",".join("%d@%d" % (i, now) for i in ids))
     if got != want:
         return "%s: the real code gives %s, the statement requires %s" % (call_case_line(case), got, want)
     return None
@@ -1799,7 +1864,7 @@ def oracle_search(ctx, corr, broken):
             cands.append((int(parts[0]), parts[1:]))
         except ValueError:
             pass
-    cands += [(0, s) for s in boundary_sequences()] + [(0, s) for s in traffic_sequences()] + [(0, s) for s in forget_sequences()] + [(0, s) for s in reuse_sequences()]
+    cands += [(0, s) for s in boundary_sequences()] + [(0, s) for s in race_sequences()] + [(0, s) for s in traffic_sequences()] + [(0, s) for s in forget_sequences()] + [(0, s) for s in reuse_sequences()]
     for t0, toks in cands:
         msg = check(t0, toks)
         if msg:
